@@ -255,6 +255,10 @@ def m_list(interp, args, kwargs):
         src = interp.resolve(src)
     if isinstance(src, SList):
         return slist_copy(interp, src)
+    if isinstance(src, SIter):
+        # list(iterator over a symbolic sequence): its remaining items (the iterator is consumed)
+        from . import seqs
+        return seqs.as_slist(interp, src)
     return list(interp.iterate(src))
 
 
